@@ -332,6 +332,24 @@ func blocks(thorough bool) []block {
 		o = append(o, Opt{Step: 1, MaxEval: 20})
 		B = append(B, block{routine: "linesearch", fams: ph, starts: func(*Family) [][]float64 { return [][]float64{{0}} }, opts: o, k1: K1, k2: -1, devAll: true})
 		B = append(B, block{routine: "linesearch", fams: phiSpecs(cat(q1[:3], quart[:3], cosh1[:1]), []float64{-2, 0.5}, []float64{1, 4}), starts: func(*Family) [][]float64 { return [][]float64{{0}} }, opts: []Opt{{Step: 1, MaxEval: 20, Con: "le", Hook: true}}, k1: -1, k2: K2})
+		// non-convex rays (rays.go): every quartic/cubic of the coefficient lattice with phi'(0) < 0 and every
+		// descent ray of the 2-D Rosenbrock / double-well objectives from the start lattice along the
+		// direction lattice, x alpha1 in 2^-4..2^2 x MaxEval; deviations on a sub-lattice.
+		at0 := func(*Family) [][]float64 { return [][]float64{{0}} }
+		dwell := specs("dwell", []float64{1, 0}, []float64{4, 1}, []float64{1, -1})
+		bases2 := cat(rosenL[:3], dwell)
+		var oRay, oRayDev []Opt
+		for _, a1 := range []float64{1, 0.5, 2, 0.25, 4, 0.125, 0.0625} {
+			for _, me := range []int{20, 6, 3} {
+				oRay = append(oRay, Opt{Step: a1, MaxEval: me, Hook: true})
+			}
+		}
+		oRay = append(oRay, Opt{Step: 0, MaxEval: 20, Hook: true}) // alpha1 = 0: the "line search failed" return of the bracketing phase
+		for _, a1 := range []float64{1, 0.25} {
+			oRayDev = append(oRayDev, Opt{Step: a1, MaxEval: 20, Hook: true})
+		}
+		B = append(B, block{routine: "linesearch", fams: cat(polySpecs(false), raySpecs(bases2, cube(lattice, 2), false)), starts: at0, opts: oRay, k1: -1, k2: -1})
+		B = append(B, block{routine: "linesearch", fams: cat(polySpecs(true), raySpecs(cat(rosenL[1:2], dwell[1:2]), cube([]float64{-2, 0.5, 1}, 2), true)), starts: at0, opts: oRayDev, k1: K1, k2: -1, devAll: true})
 	}
 	// ---- SAGA
 	{
@@ -419,6 +437,12 @@ func (rn *runner) exec(cs *Case, rank int64, routine string, base *RunResult) *R
 	c.Count("runs:"+routine, 1)
 	oc := outcome(cs, r)
 	c.Outcome(routine + ":" + oc)
+	if routine == "linesearch" && len(cs.Devs) == 0 {
+		// which return site of lineSearch.go was taken (coverage statistic)
+		lp := lsPath(cs, r)
+		c.Outcome("linesearch-path:" + lp)
+		c.Count("linesearch-path:"+lp, 1)
+	}
 	if oc == "capped" {
 		c.Count("capped_runs(excluded by premise; C20):"+routine, 1)
 		c.Count("capped:"+routine+":"+devPattern(cs.Devs)+":"+r.Capped, 1)
@@ -630,7 +654,9 @@ func main() {
 		Rule: "deviation-bounded environment exploration: every (routine, objective from the parametrised lattices, start in {-2,-1,0,1/2,1,2}^n, option class) is run with the exact objective/constraint/hook, " +
 			"then with exactly one deviation (objective error | NaN value | NaN gradient | constraint says infeasible | hook says stop) at every callback index k<=12 the undeviated run reaches, " +
 			"then two deviations at every pair k1<k2<=8 (quick: <=4) on a sub-lattice; a run is non-trivial/distinct when every scheduled deviation actually fired and the routine got past its first evaluation (>=2 objective evaluations or >=1 hook call); " +
-			"runs that hit the evaluation/tick budget are 'capped' and excluded by the property's premise",
+			"runs that hit the evaluation/tick budget are 'capped' and excluded by the property's premise. " +
+			"Line search additionally on NON-CONVEX rays: every phi(alpha)=a1 alpha+a2 alpha^2+a3 alpha^3+a4 alpha^4 with a1 in {-1,-1/2,-1/4,-2}, a2,a3 in {0,+-1/2,+-1,+-2}, a4 in {0,1/16,1/4,1/2,1} and every descent ray x0+alpha d of Rosenbrock(1,b in {1,10,100}) and three double-well objectives with x0 in {-2,-1,0,1/2,1,2}^2, d in {-2..2}^2 or -grad f(x0), " +
+			"x alpha1 in {2^-4..2^2, 0} x MaxEval in {20,6,3} (deviations on a sub-lattice); the return site of lineSearch.go every undeviated run took is reconstructed from the evaluation log and reported as outcome class 'linesearch-path:*' (measured once with go build -cover: every reachable statement of lineSearch.go is executed)",
 		Assume: []string{
 			"objective families, start lattice and option lattices are finite (see DESIGN C07); deviations land at callback index <= 12 (pairs <= 8)",
 			"the stopping condition is re-evaluated with an independent closed-form gradient; tolerance eps*(1+1e-6)+1e-13*(1+sum|terms|)",
